@@ -1,5 +1,6 @@
 """Contracts for votekit/ballot.py (C11)"""
 from pyvc.api import *
+from specs.condense import beq
 from specs.base import *
 
 
@@ -12,9 +13,10 @@ class ballot_eq:
     returns = Bool
 
     def ensures(self, other, result):
-        return (result == ((self.id is None or self.id == other.id) and self.ranking == other.ranking
-                           and self.weight == other.weight
-                           and (self.voter_set is None or self.voter_set == other.voter_set)
-                           and self.scores == other.scores)
+        return (result == beq(self, other)  # beq (specs/condense.py): the definition the Ballot-keyed dict model (S-DICT) looks keys up with
+                and result == ((self.id is None or self.id == other.id) and self.ranking == other.ranking
+                               and self.weight == other.weight
+                               and (self.voter_set is None or self.voter_set == other.voter_set)
+                               and self.scores == other.scores)
                 and implies(self.id is None and other.id is None and self.voter_set is None and other.voter_set is None,
                             result == (self.ranking == other.ranking and self.scores == other.scores and self.weight == other.weight)))
